@@ -1,12 +1,13 @@
 #!/bin/bash
-# usage: intake_seed.sh <ID> <pkgdir> <prop>...  — copies a sub-agent's deliverables from /tmp/seed/<ID>, confirms, tries the checks
-id=$1; pkg=$2; shift 2
-d=/verif/seeded/$id-agent1; mkdir -p $d
-cp /tmp/seed/$id/patch.diff $d/patch.diff
-cp /tmp/seed/$id/demo_test.go.txt $d/demo_test.go.txt
-cp /tmp/seed/$id/meta.txt $d/agent_meta.txt
+# usage: intake_seed.sh <src under /tmp/seed> <dest name under seeded/> <pkgdir> <prop>...
+# copies a sub-agent's deliverables, confirms them independently, then tries the named checks
+src=$1; dst=$2; pkg=$3; shift 3
+d=/verif/seeded/$dst; mkdir -p $d
+cp /tmp/seed/$src/patch.diff $d/patch.diff
+cp /tmp/seed/$src/demo_test.go.txt $d/demo_test.go.txt
+cp /tmp/seed/$src/meta.txt $d/agent_meta.txt
 echo $pkg > $d/demo_pkg.txt
-echo "=== $id $(date -u +%FT%TZ)" >> /verif/seeded/confirm.log
+echo "=== $dst $(date -u +%FT%TZ)" >> /verif/seeded/confirm.log
 /verif/tools/confirm_seed.sh $d $pkg 2>&1 | tee -a /verif/seeded/confirm.log
 echo "--- checks"
 /verif/tools/tryseed.sh $d/patch.diff "$@" 2>&1 | tee $d/check_output.txt
